@@ -244,20 +244,21 @@ func walkString(s string, f func(i int, p lsp.Position) bool) {
 	lastCR := false
 
 	for i, r := range s {
+		if r == '\n' && lastCR {
+			// The \n of a \r\n sequence is part of the same line break, not a
+			// position of its own: f must not stop between the two, otherwise
+			// the start of the next line converts back to the middle of the
+			// \r\n instead of to itself.
+			lastCR = false
+			continue
+		}
 		if !f(i, p) {
 			return
 		}
 		switch {
-		case r == '\r':
+		case r == '\r', r == '\n':
 			p.Line++
 			p.Character = 0
-		case r == '\n':
-			if lastCR {
-				// Ignore \n if it's part of a \r\n sequence
-			} else {
-				p.Line++
-				p.Character = 0
-			}
 		case r <= 0xFFFF:
 			// Encoded in UTF-16 with one unit
 			p.Character++
